@@ -2,7 +2,7 @@
 (* Bounded model for C13: every document with at most MaxBlocks TREES blocks *)
 (* of at most MaxStmts statements each (empty blocks included), every        *)
 (* statement drawn from the first PoolSize statement variants below (rooting *)
-(* tokens none/&R/&U, weights, comments before / inside / behind the         *)
+(* tokens none/&R/&U, weights incl. an explicit zero weight 0/2, comments before / inside / behind the         *)
 (* statement, metadata comments, internal labels, underscores, case          *)
 (* variants), each block with or without a TRANSLATE table, a CHARACTERS     *)
 (* blocks of different data types (STANDARD and DNA, one followed by a SETS  *)
@@ -30,11 +30,11 @@ Stmt(rt, w, cpre, cpost, cin, caft, tree) ==
 Pool == <<
     Stmt("", NoWeight, <<>>, <<>>, <<>>, <<>>, T1),
     Stmt("R", <<1, 2>>, <<>>, <<P("c1")>>, <<>>, <<P("z1")>>, T2),
-    Stmt("U", NoWeight, <<P("p1")>>, <<M("k", "v")>>, <<[at |-> 3, c |-> P("i1")], [at |-> 2, c |-> M("n", "2")]>>, <<M("z", "9")>>, T4),
+    Stmt("U", <<0, 2>>, <<P("p1")>>, <<M("k", "v")>>, <<[at |-> 3, c |-> P("i1")], [at |-> 2, c |-> M("n", "2")]>>, <<M("z", "9")>>, T4),
     Stmt("", <<2, 1>>, <<M("q", "7"), P("p2")>>, <<>>, <<[at |-> 2, c |-> P("i3")]>>, <<>>, T3),
     Stmt("R", NoWeight, <<>>, <<P("c2"), M("j", "x")>>, <<>>, <<P("z2"), P("z3")>>, T5),
     Stmt("U", <<1, 4>>, <<P("p3"), P("p4")>>, <<P("c3")>>, <<[at |-> 1, c |-> P("i2")], [at |-> 5, c |-> M("e", "1")]>>, <<>>, T6),
-    Stmt("", NoWeight, <<>>, <<>>, <<>>, <<P("z4")>>, T2),
+    Stmt("", <<0, 1>>, <<>>, <<>>, <<>>, <<P("z4")>>, T2),
     Stmt("R", NoWeight, <<>>, <<>>, <<>>, <<>>, T3) >>
 
 BlockShapes == UNION {[1..n -> 1..PoolSize] : n \in 0..MaxStmts}
@@ -104,6 +104,11 @@ RoutesAgree ==
             /\ [k \in 1..Len(colls) |-> [i \in 1..Len(colls[k]) |-> colls[k][i].name]] = DocNames(doc, fmt)
 FrontEnds == \A o \in Options : FrontEndsAgree(doc, o)
 Names == \A fmt \in Formats : NamesAgree(Collections(doc, fmt, [rooting |-> "none", weights |-> TRUE, meta |-> TRUE]))
-Taxa == \A fmt \in Formats : SameTaxaWhenShared(doc, fmt)
+\* NeXML with one <otus> block per TREES block (labels shared between the blocks): two consecutive reads by any
+\* two routes into one namespace name the same taxa
+BlockLabelLists == LET B == TreesBlocks(doc) IN
+    [k \in 1..Len(B) |-> Uniq(Flatten([i \in 1..Len(B[k].stmts) |-> B[k].stmts[i].tree.lf]), {})]
+Taxa == /\ \A fmt \in Formats : SameTaxaWhenShared(doc, fmt)
+        /\ (doc # NoDoc => SameTaxaWhenSharedBlocks(BlockLabelLists))
 Matrices == MatricesAgree(doc)
 =============================================================================
